@@ -15,7 +15,7 @@ RULE = ("tick-aligned geometries (binary grid, exact tier): constructor validati
         "(restart), len(), copy(), closest_frame at every half tick around the positions, range_to_segment, "
         "segment_to_range, samples; __call__ over segment and timeline supports (shorter than the window, exact "
         "multiples of the step, overlapping members) with and without align_last; plus random larger geometries; "
-        "regimes K0 and K4 (x5 ticks); non-trivial = duration != step or a finite end")
+        "regimes K0 and K4 (x5 ticks, plus ends overhanging the last position by 1..6 ticks, i.e. by less than the precision); non-trivial = duration != step or a finite end")
 
 
 def _unit(regime):
@@ -36,6 +36,11 @@ def generate(rng, tier):
                     continue
                 cases.append({"k": "win", "regime": regime, "dur": d * u, "step": s * u, "start": st * u,
                               "end": None if e is None else (st + e) * u})
+        if regime == "K4":
+            # an end that overhangs the last position by less than / about the precision (1..6 ticks of 2^-22 s)
+            for d, s, n_, r in itertools.product((5, 10, 15), (5, 10), (1, 2, 4), (1, 2, 3, 4, 5, 6)):
+                cases.append({"k": "win", "regime": regime, "dur": d, "step": s, "start": 0, "end": n_ * s + r})
+                cases.append({"k": "win", "regime": regime, "dur": d, "step": s, "start": -10, "end": -10 + n_ * s + r})
         for _ in range(2000 if tier == "thorough" else 200):
             d, s = rng.randrange(1, 40), rng.randrange(1, 40)
             st = rng.randrange(-50, 50)
